@@ -862,6 +862,22 @@ def _place(shp, region, rng, to_src):
     return sops.transform(lambda x, y: to_src.transform(x, y), ll)
 
 
+_TRS: Dict[Any, Any] = {}
+_REF4326: List[Any] = []
+
+
+def _fresh_tr(rs, rd, xy: bool):
+    """independent pyproj Transformer for reference objects built by the harness (memoised: they are expensive)"""
+    import pyproj
+
+    if not _REF4326:
+        _REF4326.append(pyproj.CRS.from_epsg(4326))
+    k = (id(rs), id(rd), xy)
+    if k not in _TRS:
+        _TRS[k] = (pyproj.Transformer.from_crs(rs, rd, always_xy=xy), rs, rd)  # keep rs/rd alive with the key
+    return _TRS[k][0]
+
+
 def cache_history(R: Run, a, b, ra, rb, label: str):
     """Process-global cache state that user code may create BEFORE the call under test: transformers for the pair in
     both axis orders and both directions, in random order.  Each of them is itself compared with a fresh pyproj
@@ -871,6 +887,8 @@ def cache_history(R: Run, a, b, ra, rb, label: str):
     rng = R.rng
     steps = [(xy, rev) for xy in (False, True) for rev in (False, True)]
     rng.shuffle(steps)
+    if not _REF4326:
+        _fresh_tr(ra, rb, True)
     steps = steps[: rng.randint(0, 4)]
     if steps and rng.random() < 0.6:
         steps.sort(key=lambda t: t[0])  # the unusual axis order first, before anything else populates the cache
@@ -878,14 +896,10 @@ def cache_history(R: Run, a, b, ra, rb, label: str):
         s, d, rs, rd = (b, a, rb, ra) if rev else (a, b, ra, rb)
         try:
             tr = s.transformer_to_crs(d, always_xy=xy)
-            fresh = pyproj.Transformer.from_crs(rs, rd, always_xy=xy)
-            # a probe point that is valid in either axis order for geographic CRSs
-            p0 = (14.25, 47.5) if rs.is_geographic else None
-            if p0 is None:
-                to_s = pyproj.Transformer.from_crs("EPSG:4326", rs, always_xy=xy)
-                p0 = to_s.transform(14.25, 47.5) if xy else to_s.transform(47.5, 14.25)
-            elif not xy:
-                p0 = (47.5, 14.25)
+            fresh = _fresh_tr(rs, rd, xy)
+            # a probe point (lon 14.25, lat 47.5) in the source CRS, in the axis order that `always_xy` asks for
+            to_s = _fresh_tr(_REF4326[0], rs, xy)
+            p0 = to_s.transform(14.25, 47.5) if xy else to_s.transform(47.5, 14.25)
             got, want = tr(p0[0], p0[1]), fresh.transform(p0[0], p0[1])
             ok = _eq_nan(got[0], want[0]) and _eq_nan(got[1], want[1])
             R.oracle(ok, "transformer-axis-order", {"fn": "transformer_to_crs", "pair": label, "reverse": rev,
@@ -1027,7 +1041,7 @@ def run_to_crs_pyproj(R: Run):
         ea, eb = ca._epsg or 0, cb._epsg or 0  # pylint: disable=protected-access
         lazy_code = (lza and not ca._str.startswith("EPSG:")) or (lzb and not cb._str.startswith("EPSG:"))  # pylint: disable=protected-access
         known = "crs-eq-fuzzy-epsg-code-match" if (not truth_same and lazy_code and ea != 0 and ea == eb) else None
-        if not truth_same:
+        if not truth_same and rng.random() < 0.5:
             cache_history(R, ca, cb, refs[da], refs[db], f"{la}->{lb}")
         for kind in ("polygon+holes", "line") if R.quick else ("polygon+holes", "line", "collection"):
             insrc = _place(kinds[kind], REGIONS["utm33"], rng, to_srcs[da])
